@@ -187,28 +187,36 @@ DRIVER_BIN = os.path.join(LEAN, ".lake", "build", "bin", "driver")
 # ---------------------------------------------------------------------------------------
 # running cases
 
-def run_bin(binpath, lines, timeout=1800, env=None):
+def run_bin(binpath, lines, timeout=600, env=None):
     """Feed `lines` (with ids) to a line-protocol binary; returns {id: output}.  If the
-    process dies (abort), bisects to find the offending case and marks it `abort`."""
+    process dies (abort) or stops answering (timeout), the offending case is marked
+    `abort` / `timeout` and the run continues after it."""
     res = {}
     pending = list(lines)
     while pending:
-        p = subprocess.run([binpath], input="\n".join(pending) + "\n", stdout=subprocess.PIPE,
-                           stderr=subprocess.DEVNULL, text=True, timeout=timeout, env=env or ENV)
+        proc = subprocess.Popen([binpath], stdin=subprocess.PIPE, stdout=subprocess.PIPE,
+                                stderr=subprocess.DEVNULL, text=True, env=env or ENV)
+        timed_out = False
+        try:
+            out, _ = proc.communicate("\n".join(pending) + "\n", timeout=timeout)
+        except subprocess.TimeoutExpired:
+            proc.kill()
+            out, _ = proc.communicate()
+            timed_out = True
         got = 0
-        for l in p.stdout.split("\n"):
+        for l in out.split("\n"):
             if not l.strip():
                 continue
             i, _, r = l.partition(" ")
             res[i] = r
             got += 1
-        if p.returncode == 0 and got >= len(pending):
+        if not timed_out and proc.returncode == 0 and got >= len(pending):
             break
-        # died on case number `got`
         if got < len(pending):
             cid = pending[got].split(" ", 1)[0]
-            res[cid] = "abort"
+            res[cid] = "timeout" if timed_out else "abort"
             pending = pending[got + 1:]
+            timeout = 60 if timed_out else timeout
         else:
             break
     return res
